@@ -1765,6 +1765,136 @@ pub fn generate_post(rng: &mut Rng, n: u64, emit: &mut dyn FnMut(Vec<String>)) {
     }
 }
 
+// ---------------------------------------------------------------------------------------------
+// mixed signature material (component `sigmix`, C07)
+
+/// Requests that carry signature material of more than one kind, built so that the ORDER in which
+/// `SignatureContext::check` looks at the material decides the outcome: the part that comes later in the code's
+/// order is correctly signed (it would be accepted if it were looked at first), the part that comes earlier is there
+/// but does not verify, or the other way round. kinds `hdr.mix-*`, `pre.mix-*`, `post.mix-*`; sink `route`.
+pub fn generate_mix(rng: &mut Rng, n: u64, emit: &mut dyn FnMut(Vec<String>)) {
+    let now = real_now();
+    let far = (now + 86_400).to_string();
+    let ak0 = AUTH_TABLE[0].0;
+    let v2_date = "Tue, 27 Mar 2007 19:36:42 +0000";
+    let mut produced = 0u64;
+    while produced < n {
+        let mut all: Vec<Case> = Vec::new();
+        match rng.below(3) {
+            0 => {
+                // a correctly header-signed V4 request whose (signed) query also carries query material
+                let mut base = gen_base(rng, false);
+                base.sink = "route".into();
+                base.stream = false;
+                // repeated parameter names are C05's open class `sigv4-dup-query-unsorted`: not the subject here
+                let mut names = std::collections::HashSet::new();
+                base.query.retain(|(k, _)| names.insert(k.clone()));
+                // likewise a body on GET / HEAD (`sigv4-get-head-body`)
+                if base.method == "GET" || base.method == "HEAD" {
+                    base.body = Vec::new();
+                }
+                let mode = rng.pick(&[0u64, 1]);
+                let (tag, extra): (&str, Vec<(&str, String)>) = match rng.below(6) {
+                    0 => ("v2query-bare", vec![("Signature", "c2ln".into())]),
+                    1 => ("v2query-full", vec![("Signature", "c2ln".into()), ("AWSAccessKeyId", ak0.into()), ("Expires", far.clone())]),
+                    2 => ("v4query-bare", vec![("X-Amz-Signature", "00".into())]),
+                    3 => ("v2key-without-signature", vec![("AWSAccessKeyId", ak0.into()), ("Expires", far.clone())]),
+                    4 => ("query-names-lowercase", vec![("signature", "c2ln".into()), ("x-amz-signature", "00".into())]),
+                    _ => ("v2query-and-v4query", vec![("Signature", "c2ln".into()), ("X-Amz-Signature", "00".into())]),
+                };
+                for (k, v) in extra {
+                    base.query.push((k.as_bytes().to_vec(), v.into_bytes()));
+                }
+                let mut c = sign_header_case(rng, &mut base, mode);
+                c.kind = format!("hdr.mix-{tag}");
+                all.push(c);
+            }
+            1 => {
+                // a correctly presigned V4 URL (inside its window) with header material added (headers that are not signed)
+                let mut base = gen_base(rng, true);
+                base.sink = "route".into();
+                base.body = Vec::new();
+                base.headers.retain(|(n, _)| !n.eq_ignore_ascii_case("authorization") && !n.eq_ignore_ascii_case("date"));
+                let mut names = std::collections::HashSet::new();
+                base.query.retain(|(k, _)| names.insert(k.clone()));
+                base.unix = now - 120;
+                let v2_in_query = rng.chance(1, 4);
+                if v2_in_query {
+                    // V2 query material inside the signed query
+                    base.query.push((b"Signature".to_vec(), b"c2ln".to_vec()));
+                    if rng.chance(1, 2) {
+                        base.query.push((b"AWSAccessKeyId".to_vec(), ak0.as_bytes().to_vec()));
+                        base.query.push((b"Expires".to_vec(), far.clone().into_bytes()));
+                    }
+                }
+                let mut p = Pre { base, expires: 3600, placement: "inside", split_scope: false, absent_listed: false };
+                let (mut c, _) = sign_presigned_case(rng, &mut p);
+                if c.headers.iter().any(|(n, _)| n.eq_ignore_ascii_case(b"authorization") || n.eq_ignore_ascii_case(b"date")) {
+                    continue;
+                }
+                if v2_in_query {
+                    c.kind = "pre.mix-v2query".into();
+                } else {
+                    let (tag, extra): (&str, Vec<(&str, String)>) = match rng.below(5) {
+                        0 => ("v2header", vec![("authorization", format!("AWS {ak0}:c2ln")), ("date", v2_date.into())]),
+                        1 => ("v2header-no-date", vec![("authorization", format!("AWS {ak0}:c2ln"))]),
+                        2 => ("other-authorization", vec![("authorization", "Bearer abc".into())]),
+                        3 => ("v4header-garbage", vec![("Authorization", "AWS4-HMAC-SHA256 nothing".into())]),
+                        _ => ("v2header-no-colon", vec![("authorization", format!("AWS {ak0}")), ("date", v2_date.into())]),
+                    };
+                    for (k, v) in extra {
+                        c.headers.push((k.as_bytes().to_vec(), v.into_bytes()));
+                    }
+                    c.kind = format!("pre.mix-{tag}");
+                }
+                all.push(c);
+            }
+            _ => {
+                // a correctly signed, policy-compliant POST form with query or header material added
+                let mut valid: Option<Case> = None;
+                generate_post(rng, 6, &mut |f: Vec<String>| {
+                    if valid.is_none() && f[0] == "post.valid" {
+                        let refs: Vec<&str> = f.iter().map(String::as_str).collect();
+                        valid = Case::parse(&refs);
+                    }
+                });
+                let Some(mut c) = valid else { continue };
+                c.sink = "route".into();
+                let tag = match rng.below(5) {
+                    0 => {
+                        c.query = Some(b"X-Amz-Signature=00".to_vec());
+                        "v4query"
+                    }
+                    1 => {
+                        c.query = Some(b"Signature=c2ln".to_vec());
+                        "v2query"
+                    }
+                    2 => {
+                        c.headers.push((b"authorization".to_vec(), format!("AWS {ak0}:c2ln").into_bytes()));
+                        c.headers.push((b"date".to_vec(), v2_date.as_bytes().to_vec()));
+                        "v2header"
+                    }
+                    3 => {
+                        c.headers.push((b"authorization".to_vec(), b"AWS4-HMAC-SHA256 nothing".to_vec()));
+                        "v4header-garbage"
+                    }
+                    _ => {
+                        c.headers.push((b"authorization".to_vec(), b"Bearer abc".to_vec()));
+                        c.query = Some(b"x-amz-signature=00&signature=1".to_vec());
+                        "other-authorization"
+                    }
+                };
+                c.kind = format!("post.mix-{tag}");
+                all.push(c);
+            }
+        }
+        for c in all {
+            emit(c.fields());
+            produced += 1;
+        }
+    }
+}
+
 pub fn _unused() -> (String, String) {
     (lst(&[]), uri_encode(b"", false))
 }
